@@ -213,6 +213,20 @@ def run(chk):
             if (k == 0 and a._nterm_mods) or (k == n - 1 and a._cterm_mods):
                 continue   # whether a terminal modification belongs to the immonium ion of the end residue is left open
             close(need(('i', k, k + 1, 1)), span_mass(k, k + 1) - o['CO'] + o['h'], f'immonium {k} = residue - CO + proton')
+        # the other return types carry the same numbers as the Fragment objects, in the same order (every charge)
+        for rt, pick in (('mass', lambda f: f.mass), ('mz', lambda f: f.mz), ('mass-label', lambda f: (f.mass, f.label)),
+                         ('mz-label', lambda f: (f.mz, f.label)), ('label', lambda f: f.label)):
+            got = pt.fragment(a.copy(), ion_types=cm.FRAGMENT_TYPES, charges=[1, 2, 3, 4], monoisotopic=mono, return_type=rt)
+            exp = [pick(f) for f in frs]
+            if len(got) != len(exp):
+                bad.append(f'return_type={rt}: {len(got)} values for {len(exp)} fragments')
+                continue
+            for g, x, f in zip(got, exp, frs):
+                gv, xv = (g[0], x[0]) if isinstance(g, tuple) else (g, x)
+                if (isinstance(gv, float) and abs(gv - xv) > TOL) or (not isinstance(gv, float) and gv != xv) \
+                        or (isinstance(g, tuple) and g[1] != x[1]):
+                    bad.append(f'return_type={rt}: {f.ion_type}[{f.start},{f.end}) z={f.charge} gives {g!r}, the fragment says {x!r}')
+                    break
         # charge steps
         for (t, s, e, z), m in ix.items():
             if z < 4 and (t, s, e, z + 1) in ix:
@@ -280,6 +294,11 @@ def run(chk):
     ocases = list(peps[:budget])
     while len(ocases) < budget:
         ocases.append((gen_peptide(rng), rng.random() < 0.5))
+    # the same peptide in BOTH modes within one process, in either order (results must not depend on what was asked before)
+    both = []
+    for a, mono in ocases[: max(10, budget // 3)]:
+        both += [(a, mono), (a, not mono), (a, mono)]
+    ocases = both + ocases[max(10, budget // 3):]
     keyf = lambda c: annot.dump(c[0]) + '|' + str(c[1])
     chk.oracle('series_relations', ocases, relations, nontrivial_fn=lambda c: cm.has_mods(c[0]) or len(c[0]._sequence) >= 3, key_fn=keyf)
     _attach(chk, 'series_relations', ocases, relations)
